@@ -4,9 +4,9 @@
 set -u
 D=$(realpath "$1"); shift
 # other long-running checks (thorough sweeps) build from /repo too: take the repo lock
-mkdir -p /verif/work; touch /verif/work/.repo.pause
+mkdir -p /verif/work
+if [ ! -e /verif/work/.repo.pause ]; then touch /verif/work/.repo.pause; trap 'rm -f /verif/work/.repo.pause' EXIT; fi
 exec 9>/verif/work/.repo.lock; flock 9
-trap 'rm -f /verif/work/.repo.pause' EXIT
 cd /repo && git diff --quiet || { echo "/repo has local changes"; exit 2; }
 git -C /repo apply "$D/patch.diff" || exit 2
 for P in "$@"; do
